@@ -491,6 +491,25 @@ func genValueUint(n *node) func(*frame) (reflect.Value, uint64) {
 	return nil
 }
 
+// genValueShift returns the value of n as a shift count. As in compiled code,
+// a negative count of signed integer type raises a run-time panic.
+func genValueShift(n *node) func(*frame) (reflect.Value, uint64) {
+	value := genValueUint(n)
+	if t := n.typ.TypeOf(); value == nil || !isInt(t) || isUint(t) {
+		return value
+	}
+	return func(f *frame) (reflect.Value, uint64) {
+		v, j := value(f)
+		if int64(j) < 0 {
+			j = negativeShift(int64(j))
+		}
+		return v, j
+	}
+}
+
+// negativeShift raises the run-time error of a shift by a negative count.
+func negativeShift(count int64) uint64 { return 1 << count }
+
 func genValueFloat(n *node) func(*frame) (reflect.Value, float64) {
 	value := genValue(n)
 
